@@ -117,3 +117,35 @@ Qed.
 
 Lemma attr_rows_judged_nonempty : (0 < length (filter (fun r => N.eqb (attr_row_verdict schema0 r) 0) adecls))%nat.
 Proof. vm_compute. lia. Qed.
+
+(** every complete template that needs no exemption is in order (base of the invariant) *)
+Definition tpl_in_order (t : tpl) : bool :=
+  negb (tp_complete t) || negb (valid_node schema0 [] (tp_ty t) (tp_node t)) || order_valid schema0 (tp_ty t) (tp_node t).
+Lemma all_tpl_in_order : forallb tpl_in_order templates = true.
+Proof. vm_compute. reflexivity. Qed.
+Lemma templates_in_order : forall t, In t templates -> tp_complete t = true ->
+  valid_node schema0 [] (tp_ty t) (tp_node t) = true -> order_valid schema0 (tp_ty t) (tp_node t) = true.
+Proof.
+  intros t Hin Hc Hv. pose proof (proj1 (forallb_forall _ _) all_tpl_in_order t Hin) as H.
+  unfold tpl_in_order in H. rewrite Hc, Hv in H. exact H.
+Qed.
+
+(** worked example: the textbox template, get_or_add a:ln under p:spPr, rename, remove a:xfrm *)
+Lemma example_admissible : order_valid schema0 ex_ty ex_tree = true /\ all_adm schema0 ex_ty ex_tree ex_ops.
+Proof. split; [vm_compute; reflexivity|]. cbn [all_adm ex_ops]. repeat split; vm_compute; reflexivity. Qed.
+
+Lemma example_result :
+  order_valid schema0 ex_ty (run_ops ex_tree ex_ops) = true
+  /\ run_ops ex_tree ex_ops <> ex_tree
+  /\ valid_node schema0 [] ex_ty ex_tree = true
+  /\ valid_node schema0 [] ex_ty (run_ops ex_tree ex_ops) = true.
+Proof.
+  split; [|split; [|split]].
+  - apply ops_preserve_order; apply example_admissible.
+  - vm_compute. discriminate.
+  - vm_compute. reflexivity.
+  - vm_compute. reflexivity.
+Qed.
+
+Lemma example_refused : apply_op ex_tree ex_refused = ex_tree.
+Proof. eapply (rejected_noop _ _ _ TypeErr). vm_compute. reflexivity. Qed.
